@@ -293,13 +293,16 @@ _REAL_DEFAULT_RNG = np.random.default_rng
 
 
 class _SpyRng:
+    force_jump = False   # when set, every uniform draw is 0.0: a jump fires at every step whose jump probability is > 0
+
     def __init__(self, log):
         self._g = _REAL_DEFAULT_RNG(12345)
         self._log = log
 
     def random(self, *a, **k):
         self._log.append(("L", None))
-        return self._g.random(*a, **k)
+        r = self._g.random(*a, **k)
+        return 0.0 if _SpyRng.force_jump else r
 
     def choice(self, *a, **k):
         return self._g.choice(*a, **k)
@@ -309,9 +312,12 @@ class _SpyRng:
 
 
 def _mini_system(L, T, dt, samp, solver, noisy):
-    state = MPS(L, state="zeros")
+    # "jump": excited initial state and a drawn uniform of 0.0, so that a jump fires at every step
+    state = MPS(L, state="ones" if noisy == "jump" else "zeros")
     H = MPO.ising(L, 1.0, 0.5)
-    nm = NoiseModel(processes=[{"name": "lowering", "sites": [0], "strength": 0.1}]) if noisy else None
+    nm = NoiseModel(processes=[{"name": "lowering", "sites": [0], "strength": 0.1},
+                               {"name": "pauli_x", "sites": [1], "strength": 0.2}] if noisy == "jump" else
+                    [{"name": "lowering", "sites": [0], "strength": 0.1}]) if noisy else None
     obs = [Observable(Z(), 0)]
     sp = AnalogSimParams(observables=obs, elapsed_time=T, dt=dt, num_traj=2 if noisy else 1, sample_timesteps=samp,
                          show_progress=False, solver=solver, threshold=1e-8)
@@ -346,9 +352,11 @@ def traced_mcwf(T, dt, samp, noisy, L=2):
     mcwf_mod.expm_arnoldi = arnoldi
     np.random.default_rng = lambda *a, **k: _SpyRng(log)
     simulator.mcwf = mcwf_spy
+    _SpyRng.force_jump = noisy == "jump"
     try:
         simulator.run(state, H, sp, nm, parallel=False)
     finally:
+        _SpyRng.force_jump = False
         mcwf_mod._embed_observable_sparse = orig_embed  # noqa: SLF001
         mcwf_mod.expm_arnoldi = orig_arnoldi
         np.random.default_rng = orig_rng
